@@ -28,9 +28,14 @@ func WithResolvedDatabase(dbStream io.Reader, pc parser.Config, rc resolver.Conf
 
 func WalkWithReporter(logStream, dbStream io.Reader, dateFormat string, pc parser.Config, rc resolver.Config, rpc reporter.Config, fc filter.Config, rpCb ReporterCallback) error {
 	return WithResolvedDatabase(dbStream, pc, rc,
-		func(nl shared.DBNodeMap) error {
+		func(nl shared.DBNodeMap) (err error) {
 			r := rpCb(rpc, nl)
-			defer r.Flush()
+			defer func() {
+				// a report that could not be written is an error
+				if ferr := r.Flush(); err == nil {
+					err = ferr
+				}
+			}()
 			f := filter.GetIntervalNodeFilter(fc)
 			return WalkNodesInStream(logStream, dateFormat, pc, f, r)
 		})
